@@ -221,6 +221,8 @@ func (g *Gen) freshNonce(src uint32) uint64 {
 		n := uint64(g.pick(1 << 20))
 		if g.chance(0.1) {
 			n = g.rng.Uint64()
+		} else if g.chance(0.1) {
+			n = u64Edges[g.pick(len(u64Edges))] + uint64(g.pick(3)) - 1
 		}
 		if !g.w().k.GetUsedNonce(g.w().ctx, types.Nonce{SourceDomain: src, Nonce: n}) {
 			return n
@@ -256,6 +258,11 @@ func (g *Gen) attesterSpelling(i int) string {
 		return "0x" + strings.ToUpper(pub)
 	case 3:
 		return "0x" + pub + "zz"
+	case 4:
+		if g.chance(0.4) {
+			return "0x" + pub[:2*(1+g.pick(64))] // a proper prefix of a real identifier (still valid hex)
+		}
+		return "0x" + pub
 	default:
 		return "0x" + pub
 	}
@@ -285,13 +292,15 @@ func (g *Gen) randomAdmin() {
 	case 6:
 		d := g.domain()
 		addr := messengerAddr(d)
-		switch g.pick(8) {
+		switch g.pick(9) {
 		case 0:
 			addr = make([]byte, 32)
 		case 1:
 			addr = addr[:31]
 		case 2:
 			addr = append(addr, 1)
+		case 3:
+			addr = g.rand32() // one in four of these is sparse (e.g. zero low 20 bytes)
 		}
 		g.tx("AddRemoteTokenMessenger", newKV().set("from", hs(g.roleHolderOr("owner", pw))).set("domain", fmt.Sprint(d)).set("address", hx(addr)))
 	case 7:
@@ -311,7 +320,7 @@ func (g *Gen) randomAdmin() {
 		g.tx("DisableAttester", newKV().set("from", hs(g.roleHolderOr("am", pw))).set("attester", hs(a)))
 	case 12, 13:
 		n := len(g.attesters())
-		amt := []int{0, 1, n - 1, n, n + 1, 2}[g.pick(6)]
+		amt := []int{0, 1, n - 1, n, n + 1, 2, 1<<31 - 1, 1 << 31, 1<<32 - 1}[g.pick(9)]
 		if amt < 0 {
 			amt = 0
 		}
@@ -327,7 +336,11 @@ func (g *Gen) randomAdmin() {
 	case 18:
 		tok := token(g.pick(3))
 		if g.chance(0.1) {
-			tok = tok[:20]
+			tok = tok[:[]int{0, 20, 31}[g.pick(3)]]
+		} else if g.chance(0.1) {
+			tok = append(tok, 0)
+		} else if g.chance(0.15) {
+			tok = g.rand32()
 		}
 		g.tx("LinkTokenPair", newKV().set("from", hs(g.roleHolderOr("tc", pw))).set("domain", fmt.Sprint(g.domain())).set("token", hx(tok)).set("localToken", hs(denomPool[g.pick(5)])))
 	case 19:
